@@ -476,6 +476,8 @@ class ExplicitComponent(Component):
                     with self._call_user_function('compute_jacvec_product'):
                         self._compute_jacvec_product_wrapper(self._inputs, d_inputs, d_residuals,
                                                              mode, self._discrete_inputs)
+                    if mode == 'rev':
+                        self._zero_irrelevant_dinputs(d_inputs)
                 finally:
                     d_inputs.read_only = d_residuals.read_only = False
 
